@@ -93,14 +93,18 @@ PROPS["C01"] = dict(
                "MPCalContext.Run; a generated fault plan makes each label fail up to 3 times at a drawn position (false await, resource refusing an "
                "operation, resource failing after performing it, pre-commit failing after the inner pre-commit succeeded). After every attempt every "
                "observable (locals, GetState, badger, files, published outputs) must equal the model; every value read must be the model's; at the end "
-               "all committed inputs are drained in order and one more read must find nothing.",
+               "all committed inputs are drained in order and one more read must find nothing. Nested-archetype resources (resources.NewNested) are driven "
+               "directly: generated sections against a nested register archetype that answers drawn requests later than the resource's time-out or "
+               "refuses a pre-commit, Abort issued at once or after the late answer; register-with-rollback model.",
     level_note="Faults are those expressible through the ArchetypeResource interface (refusals/time-outs), not process crashes. Resource kinds covered are "
                "listed in evidence classes kind.*; SingleOutputChan is excluded (documents that it cannot abort).",
     rule="program x resource mix x fault plan drawn by rapid; non-trivial = some attempt aborted after performing a write or consuming read on >=2 "
-         "different resource kinds and the label later committed; distinct by rendered program+plan.",
+         "different resource kinds and the label later committed; distinct by rendered program+plan. "
+         "Nested resource: non-trivial = a section whose request timed out and whose Abort was issued after the late answer existed.",
     runs=[
         dict(test="TestC01Memory", quick=dict(checks=4000, shards=8, timeout=300), thorough=dict(checks=400000, shards=16, timeout=3000)),
         dict(test="TestC01Sockets", quick=dict(checks=160, shards=8, timeout=300), thorough=dict(checks=16000, shards=16, timeout=3000)),
+        dict(test="TestC01Nested", quick=dict(checks=240, shards=8, timeout=300), thorough=dict(checks=9600, shards=16, timeout=3000)),
     ],
 )
 
